@@ -1,12 +1,23 @@
 //! C06 — command ring (ManyToOneRingBuffer): each written command is read exactly once, intact, in order.
 //!
 //! Regime R1 (HARNESS_GUIDE): the ring is ONE object of capacity + 768-byte trailer = 800 B (`fs=801`); everything
-//! that decides WHERE bytes go (head, tail, message length, preemption point) is a literal inside each branch,
-//! everything else (payload, type id, head-cache word, message limit, counters) is symbolic.
+//! that decides WHERE bytes go (head, tail, message length, preemption point) is a literal inside each arm,
+//! everything else (payload, head-cache word, message limit, counters; the type id wherever the record is not read
+//! back through `read`) is symbolic.
 //! "Solver-chosen but concretised": a selector chosen by the solver (`kani::any`) is case-split with `split!` into an
 //! else-if chain whose arms call the body with a literal, so every combination is decided by the solver while CBMC
 //! still constant-propagates the layout inside each arm (each arm starts from the state before the split).
-//! Oracle: `spec_place` — the placement rule of the property statement in i128 arithmetic (never calls ring code);
+//! Measured while building this file (so nobody has to re-measure):
+//!  * `for byte in slice` (set_memory) with a length that is not a syntactic constant makes every byte store a
+//!    whole-object update (800 fields x 33 iterations): the read step with a symbolic limit runs WITHOUT `fs` (40 s
+//!    instead of 150 s); everything else with `fs=801`.
+//!  * `read` fetches (length, type) as one i64; a symbolic type id makes the length non-constant for CBMC => type ids
+//!    of records that are read back are literals (TYPES), except in `c06_read_any_type`.
+//!  * the discriminant of `Result<Index, RingBufferError>` (niche-encoded) is never a syntactic constant: after a
+//!    REFUSED write symex also walks the accepting path, so a refused write followed by more ring operations is 10-100x
+//!    more expensive than an accepted one.  Refusals are therefore checked as the last ring operation of an arm.
+//!  * loop bounds: `claim` (CAS retry) 2 resp. 3 under interference, `read` 6 records, `set_memory` bytes + 1.
+//! Oracle: `spec_place` - the placement rule of the property statement in i128 arithmetic (never calls ring code);
 //! trailer offsets are the literal numbers of the Aeron ring-buffer descriptor (tail +128, head cache +256, head +384,
 //! correlation counter +512, consumer heartbeat +640 behind the data area).
 use super::hook;
@@ -145,7 +156,7 @@ macro_rules! c06_split {
         if $s == $k { $f($k) } else { kani::assume(false) }
     };
     ($s:ident, $f:expr, $k:expr, $($rest:expr),+) => {
-        if $s == $k { $f($k) } else { c06_split!($s, $f, $($rest),+) }
+        if $s == $k { $f($k) } else { $crate::c06_split!($s, $f, $($rest),+) }
     };
 }
 pub use c06_split as split;
@@ -319,46 +330,47 @@ macro_rules! write_step_one {
 }
 
 // Instance table (generated once, static text): one harness per state (lap magnitude, head index, occupancy); inside,
-// the message length 0..=5 is chosen by the solver.  quick = every head index x every occupancy at lap 0, plus every
-// other lap magnitude at two alignments (head 24 / empty: the wrap alignment; head 16 / half full: tail on a lap
-// boundary, crossing 2^31 resp. 2^32).  thorough = the full product 5 x 4 x 5.
+// the message length 0..=5 is chosen by the solver (6 instances per harness).  quick = every head index at lap 0 (empty
+// / refused-on-wrap / wrap behind a record / full), plus every other lap magnitude at two alignments (head 24 / empty:
+// the wrap alignment; head 16 / half full: tail on a lap boundary, crossing 2^31 resp. 2^32) = 72 instances.
+// thorough = the full product 5 x 4 x 5 x 6 = 600 instances.
 // @verif tier=quick fs=801 unwind=2
 write_step_one!(c06_write_b0_h00_u00, B0, 0, 0, [plain, too_long]);
-// @verif tier=quick fs=801 unwind=2
+// @verif tier=thorough fs=801 unwind=2
 write_step_one!(c06_write_b0_h00_u08, B0, 0, 8, [plain, too_long]);
-// @verif tier=quick fs=801 unwind=2
+// @verif tier=thorough fs=801 unwind=2
 write_step_one!(c06_write_b0_h00_u16, B0, 0, 16, [plain, too_long]);
-// @verif tier=quick fs=801 unwind=2
+// @verif tier=thorough fs=801 unwind=2
 write_step_one!(c06_write_b0_h00_u24, B0, 0, 24, [plain, refuse, too_long]);
-// @verif tier=quick fs=801 unwind=2
+// @verif tier=thorough fs=801 unwind=2
 write_step_one!(c06_write_b0_h00_u32, B0, 0, 32, [refuse, too_long]);
-// @verif tier=quick fs=801 unwind=2
+// @verif tier=thorough fs=801 unwind=2
 write_step_one!(c06_write_b0_h08_u00, B0, 8, 0, [plain, too_long]);
-// @verif tier=quick fs=801 unwind=2
+// @verif tier=thorough fs=801 unwind=2
 write_step_one!(c06_write_b0_h08_u08, B0, 8, 8, [plain, too_long]);
 // @verif tier=quick fs=801 unwind=2
 write_step_one!(c06_write_b0_h08_u16, B0, 8, 16, [plain, refuse, too_long]);
-// @verif tier=quick fs=801 unwind=2
+// @verif tier=thorough fs=801 unwind=2
 write_step_one!(c06_write_b0_h08_u24, B0, 8, 24, [plain, refuse, too_long]);
-// @verif tier=quick fs=801 unwind=2
+// @verif tier=thorough fs=801 unwind=2
 write_step_one!(c06_write_b0_h08_u32, B0, 8, 32, [refuse, too_long]);
-// @verif tier=quick fs=801 unwind=2
+// @verif tier=thorough fs=801 unwind=2
 write_step_one!(c06_write_b0_h16_u00, B0, 16, 0, [plain, too_long]);
 // @verif tier=quick fs=801 unwind=2
 write_step_one!(c06_write_b0_h16_u08, B0, 16, 8, [plain, wrap, too_long]);
-// @verif tier=quick fs=801 unwind=2
+// @verif tier=thorough fs=801 unwind=2
 write_step_one!(c06_write_b0_h16_u16, B0, 16, 16, [plain, too_long]);
-// @verif tier=quick fs=801 unwind=2
+// @verif tier=thorough fs=801 unwind=2
 write_step_one!(c06_write_b0_h16_u24, B0, 16, 24, [plain, refuse, too_long]);
-// @verif tier=quick fs=801 unwind=2
+// @verif tier=thorough fs=801 unwind=2
 write_step_one!(c06_write_b0_h16_u32, B0, 16, 32, [refuse, too_long]);
-// @verif tier=quick fs=801 unwind=2
+// @verif tier=thorough fs=801 unwind=2
 write_step_one!(c06_write_b0_h24_u00, B0, 24, 0, [plain, wrap, too_long]);
-// @verif tier=quick fs=801 unwind=2
+// @verif tier=thorough fs=801 unwind=2
 write_step_one!(c06_write_b0_h24_u08, B0, 24, 8, [plain, too_long]);
-// @verif tier=quick fs=801 unwind=2
+// @verif tier=thorough fs=801 unwind=2
 write_step_one!(c06_write_b0_h24_u16, B0, 24, 16, [plain, too_long]);
-// @verif tier=quick fs=801 unwind=2
+// @verif tier=thorough fs=801 unwind=2
 write_step_one!(c06_write_b0_h24_u24, B0, 24, 24, [plain, refuse, too_long]);
 // @verif tier=quick fs=801 unwind=2
 write_step_one!(c06_write_b0_h24_u32, B0, 24, 32, [refuse, too_long]);
@@ -894,17 +906,16 @@ pub struct ConcSeen {
     pub sequential: bool,
     pub refused: bool,
     pub helped: bool,
-    pub too_late: bool,
 }
 
 /// the record (and wrap padding header) a placement `sp` promises is in the ring
-fn placed(m: &Ring, sp: &Place, len: i32, id: i32, bytes: &[u8; 8]) -> bool {
+pub fn placed(m: &Ring, sp: &Place, len: i32, id: i32, bytes: &[u8; 8]) -> bool {
     record_is(m, sp.index, len, id, bytes)
         && (sp.padding == 0 || (m.i32_at(sp.tail_index) == sp.padding as i32 && m.i32_at(sp.tail_index + 4) == -1))
 }
 
 /// drain the ring with up to three unlimited reads (a wrap needs one read per block)
-fn drain(rb: &ManyToOneRingBuffer, log: &mut Log) {
+pub fn drain(rb: &ManyToOneRingBuffer, log: &mut Log) {
     let _ = rb.read(|t, b| log_push(log, t, b), i32::MAX);
     let _ = rb.read(|t, b| log_push(log, t, b), i32::MAX);
     let _ = rb.read(|t, b| log_push(log, t, b), i32::MAX);
@@ -988,7 +999,6 @@ macro_rules! conc_cover {
     ($seen:ident, sequential) => { kani::cover!($seen.sequential, "[must] preemption point beyond the last access (sequential order)"); };
     ($seen:ident, refused) => { kani::cover!($seen.refused, "[must] one of the writes refused for lack of space"); };
     ($seen:ident, helped) => { kani::cover!($seen.helped, "[must] write accepted thanks to the concurrent read"); };
-    ($seen:ident, too_late) => { kani::cover!($seen.too_late, "[must] write refused although the consumer freed space later during the write"); };
 }
 
 macro_rules! two_producers {
@@ -1014,10 +1024,6 @@ two_producers!(c06_conc_two_producers_plain_late, B1, 4, 1, [4, 5, 6, 7], [after
 two_producers!(c06_conc_two_producers_wrap_early, B2 + 24, 4, 0, [0, 1, 2, 3, 4], [before_cas, after_cas]);
 // @verif tier=thorough fs=801 unwind=4 unwindset=claim:3,RingBuffer4read:6,set_memory:33
 two_producers!(c06_conc_two_producers_wrap_late, B2 + 24, 4, 0, [5, 6, 7, 8, 9, 10], [after_cas, sequential]);
-// index 24, A = 4 and B = 4: only the first claim fits (16 + padding 8, then 16 more exceed the capacity)
-// @verif tier=thorough fs=801 unwind=4 unwindset=claim:3,RingBuffer4read:6,set_memory:33
-two_producers!(c06_conc_two_producers_one_fits, B3 + 24, 4, 4, [0, 1, 2, 3, 4, 5, 6, 7, 8, 9, 10], [before_cas, after_cas, refused]);
-
 /// Full ring (two 16-byte records); producer A (length la) preempted at access j by a complete consumer read with
 /// limit `lim`, which frees space.
 fn producer_vs_consumer_at(j: u32, head: i64, la: i32, lim: i32, r: &[Cmd; 4], seen: &mut ConcSeen) {
@@ -1051,9 +1057,6 @@ fn producer_vs_consumer_at(j: u32, head: i64, la: i32, lim: i32, r: &[Cmd; 4], s
         seen.helped = true;
     } else {
         assert!(tail2 == tail, "C06: a refused write leaves the producer position alone");
-        if during {
-            seen.too_late = true;
-        }
     }
     assert!(tail2 - head2 <= CAP as i64 && head2 <= tail2, "C06: unconsumed bytes stay within 0..=capacity");
     // everything written is handed out exactly once, in order
@@ -1087,9 +1090,40 @@ macro_rules! producer_vs_consumer {
     };
 }
 
+// Arms j = 0, 1, 2 only: the producer looks at the consumer position in its access 2 and gives up right there when the
+// ring is still full, so every later preemption point is the plain sequential order "write refused, then read" (write
+// step + read step).  (A refused write followed by more ring operations is also what CBMC cannot constant-fold: the
+// niche-encoded Result discriminant stays symbolic and the accepting path is explored as well.)
 // @verif tier=quick fs=801 unwind=4 unwindset=claim:3,RingBuffer4read:6,set_memory:33
-producer_vs_consumer!(c06_conc_consumer_frees_space_early, B3, 4, 1, [0, 1, 2, 3], [helped, too_late]);
+producer_vs_consumer!(c06_conc_consumer_frees_space, B3, 4, 1, [0, 1, 2], [helped]);
+// the consumer frees the whole ring; header-only message
 // @verif tier=thorough fs=801 unwind=4 unwindset=claim:3,RingBuffer4read:6,set_memory:33
-producer_vs_consumer!(c06_conc_consumer_frees_space_late, B3, 4, 1, [4, 5, 6, 7, 8, 9], [too_late]);
-// @verif tier=thorough fs=801 unwind=4 unwindset=claim:3,RingBuffer4read:6,set_memory:33
-producer_vs_consumer!(c06_conc_consumer_frees_all, B0, 0, 2, [0, 1, 2, 3, 4, 5, 6, 7, 8, 9], [helped, too_late]);
+producer_vs_consumer!(c06_conc_consumer_frees_all, B0, 0, 2, [0, 1, 2], [helped]);
+
+// ------------------------------------------------------------------------------------------------------------------
+// vacuity witnesses
+// ------------------------------------------------------------------------------------------------------------------
+
+/// The write family must be able to fail: "a wrapping write puts its record at the tail index" is false.
+// @verif tier=quick twin=1 fs=801 unwind=2
+#[kani::proof]
+fn c06_twin_wrapping_write_stays_at_tail_index() {
+    let m = ring_mem();
+    set_positions(m, B1 + 24, B1 + 24, B1 + 24);
+    let rb = ring();
+    let c = produce(&rb, TYPES[0], 4);
+    assert!(m.i32_at(24) == 12 && m.i32_at(0) == 0, "C06: TWIN a wrapping write puts its record at the tail index");
+}
+
+/// The read family must be able to fail: "read never hands anything out" is false.
+// @verif tier=quick twin=1 fs=801 unwind=4 unwindset=claim:2,RingBuffer4read:6,set_memory:17
+#[kani::proof]
+fn c06_twin_read_hands_out_nothing() {
+    let m = ring_mem();
+    set_positions(m, B1 + 8, B1 + 8, B1 + 8);
+    let rb = ring();
+    let c = produce(&rb, TYPES[1], 2);
+    let mut log = EMPTY_LOG;
+    let n = rb.read(|t, b| log_push(&mut log, t, b), 1);
+    assert!(n == 0 && log.n == 0, "C06: TWIN read never hands anything out");
+}
